@@ -1,1 +1,2 @@
+pub mod c17;
 pub mod c18;
